@@ -2,7 +2,7 @@
 From Coq Require Import ZArith.
 From Coq Require Extraction.
 From Coq Require Import ExtrOcamlBasic.
-From C03 Require Import Model ModelF ModelDK.
+From C03 Require Import Model ModelF ModelDK ModelIn.
 Extraction Language OCaml.
 Cd "ocaml".
 Extraction "model.ml" mulZ addZ addinZ subZ negZ axpyZ axmyZ maxpyZ maxpyinZ reduceZ invZ divZ divinZ isUnitZ gcdextZ mOneZ
@@ -13,5 +13,12 @@ Extraction "model.ml" mulZ addZ addinZ subZ negZ axpyZ axmyZ maxpyZ maxpyinZ red
   ex_mul ex_reduce ex_add ex_sub ex_neg ex_axpy ex_axmy ex_maxpy ex_inv ex_div ex_divin ex_isUnit
   dk_mul dk_reduce fb_mul fb_reduce xb_mul xb_reduce xb_axpy xb_axmy xb_maxpy xb_div bf_negn bi_negn bi_maxpyn
   ru_mul ru_sub ru_subin ru_add ru_neg ru_axpy ru_maxpy ru_axmy ru_maxpyin ru_reduce ru_isUnit
+  subinZ mulinZ neginZ invinZ axpyinZ axmyinZ constsZ
+  fm_addin fm_mulin fm_negin fm_invin fm_axpyin fm_consts
+  bf_addin bf_subin bf_mulin bf_negin bf_invin bf_divin bf_axmyin bf_maxpyin bf_consts
+  bi_addin bi_subin bi_mulin bi_negin bi_invin bi_divin bi_axpyin bi_axmyin bi_maxpyin bi_consts
+  xb_addin xb_subin xb_mulin xb_negin xb_invin xb_divin xb_axpyin xb_axmyin xb_maxpyin xb_consts
+  ru_addin ru_mulin ru_negin ru_axpyin ru_axmyin ru_consts
+  zz_addin zz_subin zz_mulin zz_negin zz_axpyin zz_maxpyin zz_consts
   zz_mul zz_sub zz_add zz_neg zz_axpy zz_axmy zz_maxpy zz_axmyin zz_reduce.
 Cd "..".
